@@ -29,12 +29,9 @@ ASSUMPTIONS = [
     "quantizer strings only",
     "str(quantizer) that raises on the original model (C10 defects) is "
     "compared as the exception type name",
-    "QConv2DTranspose (array_ops.stack missing in TF 2.21) and "
-    "QGRU(reset_after=True, use_bias=True) (array_ops.unstack missing) cannot "
-    "be built in this image and are not generated; QGRU always gets a "
-    "recurrent_quantizer (without one its cell multiplies by the input kernel "
-    "and cannot be built: C11 territory); folded layers only with center=True "
-    "(C15 finding); binary(use_stochastic_rounding) not generated (C08 crash)",
+    "QConv2DTranspose (array_ops.stack missing in TF 2.21) cannot be built in "
+    "this image and is not generated; binary(use_stochastic_rounding) is not "
+    "generated (C08 crash at inference)",
     "a failure of a model that carries an option its quantizer's get_config "
     "does not emit (C09 defect) is attributed to that option iff the same "
     "model without the option passes",
@@ -53,14 +50,15 @@ REQUIRED_LABELS = {
         "q:quantized_relu_po2", "q:binary", "q:ternary", "q:stochastic_ternary",
         "q:stochastic_binary", "q:quantized_tanh", "q:quantized_sigmoid",
         "q:quantized_ulaw", "q:quantized_linear", "q:bernoulli", "string_form",
-        "merge", "masked_conv", "canonical", "hyp"],
+        "merge", "masked_conv", "canonical", "hyp", "frozen_layer",
+        "bn_no_affine", "gru_reset_after"],
     "thorough": ["L:" + c for c in _LAYERS] + [
         "route_ok:json", "route_ok:clone", "route_ok:h5", "pred_compared",
         "q:quantized_hswish", "lossy", "api:predict", "masked_conv", "merge",
         "canonical", "hyp"],
 }
 ROUTES = ("json", "clone", "h5")
-EXCLUDED_UNBUILDABLE = ["QConv2DTranspose", "QGRU(reset_after=True,use_bias=True)"]
+EXCLUDED_UNBUILDABLE = ["QConv2DTranspose"]
 
 _count = {"n": 0}
 
@@ -378,6 +376,14 @@ def oracle_case(ctx, case, extra_labels=()):
       labs.append("merge")
     if ld.get("kw", {}).get("mask") is not None:
       labs.append("masked_conv")
+    if ld.get("kw", {}).get("trainable") is False:
+      labs.append("frozen_layer")
+    if ld["cls"] == "QBatchNormalization" and ld["kw"].get("center") is False and (
+        ld["kw"].get("scale") is False):
+      labs.append("bn_no_affine")
+    for h in (ld, ld.get("inner", {})):
+      if h.get("cls") == "QGRU" and h.get("kw", {}).get("reset_after"):
+        labs.append("gru_reset_after")
   for _, _, spec in G.all_qspecs(desc):
     if spec is None:
       continue
